@@ -19,6 +19,9 @@
 //!                                  leptos_server names for the codec (new_str, new, new_serde_lite, new_miniserde, new_rkyv;
 //!                                  new_with_options for the custom codec); arb rb aob ob = its `*_blocking` twin
 //!                              sv  SharedValue::new_str / new / … (ready at once)
+//!                              svn arn rn = sv ar r whose initialiser / fetcher synchronously creates an inner
+//!                                  SharedValue<String> (value "inner-of-<hex>") before returning: depth-2 creation;
+//!                                  the output then ends `inner=<id>` and the inner value is write k + 1
 //!                            created under an Owner whose shared context forwards to the real SsrSharedContext
 //!                            and records next_id / write_async                         -> w <k> <id> <registered 0|1> enc=<encoded string> ## verdict
 //!   err <b> <e> <msg>        register_error(boundary b, error id e, Error whose Display is msg) -> ok
@@ -2171,6 +2174,7 @@ fn compute_tags(ops_path: &str) -> HashMap<String, String> {
                             "ao" => "arc-once",
                             "o" => "once",
                             "arb" | "rb" | "aob" | "ob" => "blocking",
+                            "svn" | "arn" | "rn" => "nested-creation",
                             "sv" => "shared-value",
                             _ => "variant?",
                         });
@@ -2355,7 +2359,7 @@ fn sanitize(s: &str, drop_lt: bool) -> String {
 
 /// one `write` op: `<kind> <variant> <value> [<encoded form for kinds the model does not encode>]`
 fn gen_write(r: &mut Rng, safe: bool) -> String {
-    let variant = *r.pick(&["d", "d", "d", "ar", "r", "ao", "o", "sv", "arb", "rb", "aob", "ob"]);
+    let variant = *r.pick(&["d", "d", "d", "ar", "r", "ao", "o", "sv", "arb", "rb", "aob", "ob", "arn", "rn"]);
     let text = |r: &mut Rng| {
         if r.chance(1, 8) {
             String::new() // the empty value is a value
@@ -2459,6 +2463,9 @@ fn permutations(n: usize) -> Vec<Vec<usize>> {
 /// page, and on a page that was never server-rendered. Half of them repeat a (kind, value) of the
 /// page (so that data read under a stale id would decode), with any carrier.
 fn late_client_ops(setup: &[String], r: &mut Rng) -> Vec<String> {
+    if setup.iter().any(|l| l.starts_with("write ") && l.split_whitespace().nth(2) == Some("svn")) {
+        return vec![]; // see the generator's note on `svn`
+    }
     let writes: Vec<Vec<&str>> = setup
         .iter()
         .filter(|l| l.starts_with("write "))
@@ -2679,8 +2686,16 @@ fn gen(seed: u64, n: usize, path: &str) -> std::io::Result<()> {
                     if r.chance(1, 5) {
                         setup.push("id".into()); // an error boundary taking an id in between
                     }
-                    let w = gen_write(&mut r, safe);
-                    let shared = w.split_whitespace().nth(1) == Some("sv");
+                    let mut w = gen_write(&mut r, safe);
+                    if k + 1 == nv && hyd && r.chance(1, 5) {
+                        // a SharedValue whose initialiser creates another one — as the page's last
+                        // carrier: a client that finds the outer value never runs the initialiser, so
+                        // it never draws the inner id (HEAD behaviour; later ids would shift)
+                        let mut parts: Vec<&str> = w.split_whitespace().collect();
+                        parts[1] = "svn";
+                        w = parts.join(" ");
+                    }
+                    let shared = matches!(w.split_whitespace().nth(1), Some("sv") | Some("svn"));
                     setup.push(format!("write {w}"));
                     if hyd && !shared {
                         registered.push(k); // a SharedValue needs no `complete`
